@@ -128,31 +128,14 @@ def same_upto_sign(x, y, tol):
     x, y = np.asarray(x, dtype=float), np.asarray(y, dtype=float)
     if x.shape != y.shape:
         return False
+    if x.ndim == 1:       # the embedding of one vector: one sign per component, i.e. per element
+        return bool(np.allclose(np.abs(x), np.abs(y), atol=tol, rtol=tol))
     if x.ndim != 2:
         return bool(np.allclose(x, y, atol=tol, rtol=tol) or np.allclose(x, -y, atol=tol, rtol=tol))
     return all(np.allclose(x[:, j], y[:, j], atol=tol, rtol=tol) or np.allclose(x[:, j], -y[:, j], atol=tol, rtol=tol)
                for j in range(x.shape[1]))
 
 
-SIGN_FREE = ('Spectral', 'SVD', 'GSVD', 'PCA', 'HITS')
-
-
-def spectrum_degenerate(a, k=4):
-    """eigen / singular vectors are comparable only if the leading values (a few beyond those returned) are simple"""
-    d = np.asarray(a.todense(), dtype=float)
-    mats = [d]
-    r, c = d.sum(axis=1), d.sum(axis=0)
-    with np.errstate(divide='ignore', invalid='ignore'):
-        ri = np.where(r > 0, 1 / np.sqrt(np.abs(r)), 0.0)
-        ci = np.where(c > 0, 1 / np.sqrt(np.abs(c)), 0.0)
-    mats.append(ri[:, None] * d * ci[None, :])
-    mats.append(d - d.mean(axis=0, keepdims=True))
-    for m in mats:
-        sv = np.linalg.svd(m, compute_uv=False)
-        top = sv[:k + 1]
-        if len(top) > 1 and np.min(np.abs(np.diff(top))) < 1e-6 * max(1.0, top[0]):
-            return True
-    return False
 
 
 def same_output(x, y, tol, sign_free=False, degenerate=False):
@@ -321,7 +304,7 @@ def compare_case(E, a, aux, kind, reps):
     if ref_err:
         rec['ref_raised'] = ref_err
         rec['counts'].append('reference-raises:' + E.name)
-    degen = E.sign_free and spectrum_degenerate(a)
+    degen = E.spectrum is not None and T.spectrum_multiple(E.spectrum(a))
     void = E.top_simple and top_singular_multiple(a)      # HITS: the leading singular pair is not defined
     for rname, fmt, dtype, seed in reps:
         rep = T.apply_rep(a, fmt, dtype, seed)
@@ -433,7 +416,7 @@ def _task(args):
     only_rep = args[3] if len(args) > 3 else None
     E = _table()[name]
     rng = _case_rng(seed, name, t)
-    kind = E.kinds[t % len(E.kinds)]
+    kind = E.kinds[(t + seed) % len(E.kinds)]        # the seed rotates the kinds: the quick tier sees all of them over the seeds
     t0 = time.time()
     a = T.make_graph(rng, kind)
     aux = T.make_aux(rng, a, kind)
@@ -546,6 +529,8 @@ def relation_cases(ctx, per_entry, sub=None, only=None, budget_s=None):
                     raise ToolFailure('time-out in entry %s, graph %d' % (a[1], a[2]))
         for a in [a for a in rest if a not in recs]:
             recs[a] = _isolate(a, deadline)
+    from vlib import core as _core
+    findings = _core.load_findings()
     stats, shown = {}, {}
     for a in tasks:
         rec = recs[a]
@@ -568,8 +553,9 @@ def relation_cases(ctx, per_entry, sub=None, only=None, budget_s=None):
         for sig, desc, detail in rec['fails']:
             # at most three failing inputs per (entry, clause, argument) are reported; the rest is counted
             k = (sig['entry'], sig.get('clause'), sig.get('argument'))
-            shown[k] = shown.get(k, 0) + 1
-            if shown[k] <= 3:
+            if _core.match_finding(findings, 'C01', sig) is None:       # inputs of a recorded finding do not use up the three places
+                shown[k] = shown.get(k, 0) + 1
+            if shown.get(k, 0) <= 3:
                 tgt.spec_fail(sig, desc, detail)
             else:
                 tgt.count('further-failing-inputs-not-listed:' + sig['entry'])
@@ -578,7 +564,19 @@ def relation_cases(ctx, per_entry, sub=None, only=None, budget_s=None):
 
 def check_liveness(ctx, stats):
     """an entry whose reference call raises on every graph checks nothing: that is a failure of this tool"""
-    dead = sorted(n for n, st in stats.items() if st['graphs'] >= 2 and st['reference_raises'] == st['graphs'])
+    dead = sorted(n for n, st in stats.items() if (st['graphs'] >= 2 and st['reference_raises'] == st['graphs']) or st['graphs'] == 0)
+    for n in dead:
+        if stats[n]['graphs'] == 0:
+            stats[n]['error'] = 'no graph was run (the auxiliary argument it needs could not be built)'
+    # share of the eigen / singular vector comparisons left out because the spectrum is genuinely multiple
+    share = {}
+    for n, st in stats.items():
+        if _table()[n].spectrum is not None and st['calls'] > st['graphs']:
+            share[n] = round(ctx.dist.get('degenerate-spectrum:' + n, 0) / (st['calls'] - st['graphs']), 3)
+    ctx.extra['vectors_not_compared_share'] = share
+    over = {n: v for n, v in share.items() if v > 0.5 and stats[n]['graphs'] >= 10}
+    if over:
+        raise ToolFailure('more than half of the eigen / singular vector comparisons were left out as degenerate: %s' % over)
     void = {n: '%d/%d' % (st['reference_raises'], st['graphs']) for n, st in stats.items() if st['reference_raises']}
     ctx.extra['entries'] = len(stats)
     ctx.extra['graphs_per_entry'] = PER_ENTRY[ctx.tier]
@@ -664,10 +662,72 @@ def _make_container(rng, fmt, dtype, nr, nc, pool):
     return obj, _enc_rows([[(int(c), _num(v)) for c, v in zip(obj.rows[i], obj.data[i])] for i in range(nr)])
 
 
-def container_cases(ctx, count):
-    """the Lean model of check_format = sparse.csr_matrix(x), dtype included, against scipy: the CSR rows as stored
-    (order, duplicates) and the canonical form (duplicates summed in the dtype, sorted, zeros dropped), both exact"""
+def _ser_raw(obj):
+    """the stored arrays of a container, as they are (order and duplicates kept)"""
+    if isinstance(obj, np.ndarray):
+        return {'fmt': 'dense', 'dtype': str(obj.dtype), 'shape': list(obj.shape), 'a': obj.tolist()}
+    d = {'fmt': obj.format, 'dtype': str(obj.dtype), 'shape': list(obj.shape)}
+    if obj.format in ('csr', 'csc'):
+        d.update(data=obj.data.tolist(), indices=obj.indices.tolist(), indptr=obj.indptr.tolist())
+    elif obj.format == 'coo':
+        d.update(data=obj.data.tolist(), row=obj.row.tolist(), col=obj.col.tolist())
+    else:
+        d.update(rows=[list(map(int, r)) for r in obj.rows], data=[list(x) for x in obj.data.tolist()] if len(obj.data) else [])
+    return d
+
+
+def _deser_raw(d):
+    dt, shape = np.dtype(d['dtype']), tuple(d['shape'])
+    if d['fmt'] == 'dense':
+        return np.array(d['a'], dtype=dt).reshape(shape)
+    if d['fmt'] in ('csr', 'csc'):
+        cls = sparse.csr_matrix if d['fmt'] == 'csr' else sparse.csc_matrix
+        return cls((np.array(d['data'], dtype=dt), np.array(d['indices'], dtype=np.int32), np.array(d['indptr'], dtype=np.int32)), shape=shape)
+    if d['fmt'] == 'coo':
+        return sparse.coo_matrix((np.array(d['data'], dtype=dt), (np.array(d['row'], dtype=int), np.array(d['col'], dtype=int))), shape=shape)
+    m = sparse.lil_matrix(shape, dtype=dt)
+    for i, (r, x) in enumerate(zip(d['rows'], d['data'])):
+        m.rows[i], m.data[i] = list(r), [dt.type(v) for v in x]
+    return m
+
+
+def _container_lines(obj, tok, fmt, nr, nc, payload, allow, dtype):
+    """the cases of one container: check_format (the implementation) and, as the assumed contract of the external
+    code, scipy's own csr_matrix(x) — a disagreement of the latter is a failure of this tool's model of scipy"""
     from sknetwork.utils.check import check_format
+
+    def stored(conv):
+        return lambda: 'ok ' + _enc_rows(_csr_rows(conv(obj)))
+
+    def canonical(conv):
+        def f():
+            m = conv(obj).copy()
+            m.sum_duplicates()
+            m.sort_indices()
+            m.eliminate_zeros()
+            return 'ok ' + _enc_rows(_csr_rows(m))
+        return f
+    impl_conv = lambda o: check_format(o, allow_empty=True)
+    jobs = [('c01.tocsr', 'check_format', stored(impl_conv), ''), ('c01.canon', 'check_format', canonical(impl_conv), ''),
+            ('c01.check', 'check_format', lambda: 'ok ' + _enc_rows(_csr_rows(check_format(obj, allow_empty=allow))), ' %d' % allow),
+            ('c01.tocsr', 'scipy.csr_matrix', stored(sparse.csr_matrix), ''), ('c01.canon', 'scipy.csr_matrix', canonical(sparse.csr_matrix), '')]
+    out = []
+    for cmd, entry, f, suffix in jobs:
+        with warnings.catch_warnings():
+            warnings.simplefilter('ignore')
+            impl = call(f)
+        run = '%s %s %s %d %d %s%s' % (cmd, tok, fmt, nr, nc, payload, suffix)
+        nontrivial = obj.nnz > 0 if sparse.issparse(obj) else bool(np.any(obj))
+        out.append(Case((cmd, entry, dtype, fmt, nr, nc, payload), {'entry': entry, 'format': fmt, 'dtype': dtype, 'line': cmd},
+                        run, impl, None, nontrivial,
+                        {'f': 'check_format', 'container': _ser_raw(obj), 'tok': tok, 'payload': payload, 'allow': int(allow), 'dtype': dtype}))
+    return out
+
+
+def container_cases(ctx, count):
+    """the Lean model of check_format = sparse.csr_matrix(x), dtype included, against the implementation: the CSR rows as
+    stored (order, duplicates), the canonical form (duplicates summed in the dtype, sorted, zeros dropped) and the
+    refusal of an empty matrix, all exact"""
     rng = ctx.rng
     cases = []
     for t in range(count):
@@ -676,31 +736,22 @@ def container_cases(ctx, count):
         dtype = rng.choice(sorted(CONTAINER_DTYPES))
         tok, pool = CONTAINER_DTYPES[dtype]
         obj, payload = _make_container(rng, fmt, dtype, nr, nc, pool)
-
-        def stored(obj=obj):
-            return 'ok ' + _enc_rows(_csr_rows(check_format(obj, allow_empty=True)))
-
-        def canonical(obj=obj):
-            m = check_format(obj, allow_empty=True).copy()
-            m.sum_duplicates()
-            m.sort_indices()
-            m.eliminate_zeros()
-            return 'ok ' + _enc_rows(_csr_rows(m))
-        allow = rng.random() < 0.5
-
-        def checked(obj=obj, allow=allow):
-            return 'ok ' + _enc_rows(_csr_rows(check_format(obj, allow_empty=allow)))
-        for cmd, f in (('c01.tocsr', stored), ('c01.canon', canonical), ('c01.check', checked)):
-            with warnings.catch_warnings():
-                warnings.simplefilter('ignore')
-                impl = call(f)
-            run = '%s %s %s %d %d %s' % (cmd, tok, fmt, nr, nc, payload) + ((' %d' % allow) if cmd == 'c01.check' else '')
-            nontrivial = obj.nnz > 0 if sparse.issparse(obj) else bool(np.any(obj))
-            cases.append(Case((cmd, dtype, fmt, nr, nc, payload), {'entry': 'check_format', 'format': fmt, 'dtype': dtype, 'line': cmd},
-                              run, impl, None, nontrivial, {'f': 'check_format', 'line': run, 'impl': impl, 'dtype': dtype}))
+        cases += _container_lines(obj, tok, fmt, nr, nc, payload, rng.random() < 0.5, dtype)
         ctx.count('container:' + fmt)
         ctx.count('container-dtype:' + dtype)
     return cases
+
+
+def evaluate_containers(ctx, cases):
+    """run lines of part (1); the lines about scipy's own conversion are a contract: if they disagree, the model of the
+    external code is out of date (tool failure), not the property"""
+    n0 = len(ctx.run_disagreements)
+    evaluate(ctx, cases)
+    mine = [d for d in ctx.run_disagreements[n0:] if (d['sig'] or {}).get('entry') == 'scipy.csr_matrix']
+    if mine:
+        del ctx.run_disagreements[n0:]
+        raise ToolFailure('the assumed contract of scipy moved: sparse.csr_matrix(x) no longer gives what Model/Container.lean says '
+                          '(%d lines), e.g. %s -> model %s, scipy %s' % (len(mine), mine[0]['line'], mine[0]['model'], mine[0]['impl']))
 
 
 # ------------------------------------------------------------------------------------------------
@@ -762,6 +813,8 @@ def generate(ctx):
     ctx.extra['effects_public'] = sum(1 for f in fns if f.public)
     ctx.extra['effects_public_list'] = sorted(f.qual for f in fns if f.public)
     ctx.extra['effects_exempted'] = [f.qual for f in fns if getattr(f, 'exempt', False)]
+    ctx.extra['effects_declared_writes_of_internal_functions'] = {f.qual: [f.params[p] for p in sorted(f.writes) if p < len(f.params)]
+                                                                  for f in fns if not f.public and f.writes}
     ctx.extra['effects_unknown_calls'] = {k: sorted(v) for k, v in sorted(unknown.items())}
     ctx.extra['effects_calls_resolved_by_method_name_only'] = table.unresolved
     ctx.extra['effects_table_selftest'] = {'assertions': len(effects.self_test()), 'failures': failures}
@@ -852,7 +905,7 @@ def consumer_instances(ctx):
 
 def run(ctx):
     corpus_cases(ctx)
-    evaluate(ctx, container_cases(ctx, CONTAINERS[ctx.tier]))
+    evaluate_containers(ctx, container_cases(ctx, CONTAINERS[ctx.tier]))
     ownership_obligations(ctx)
     consumer_instances(ctx)
     stats = relation_cases(ctx, PER_ENTRY[ctx.tier])
@@ -923,6 +976,11 @@ def search(ctx, pending):
             cls = e.split('(')[0].split('.')[0]
             if cls and ('.' + cls + '.' in fnname or fnname.endswith('.' + cls)):
                 names.add(e)
+    if any((sig or {}).get('entry') == 'check_format' for kind, sig, obj in pending):
+        # check_format no longer does what its model says: look for the consequence on the statement, through the entry
+        # points that rely on it most directly
+        names |= {'check_format', 'get_adjacency', 'get_adjacency_values', 'get_degrees', 'PageRank(piteration)', 'Louvain(dugue)',
+                  'get_distances', 'count_triangles', 'Diffusion'}
     if names:
         relation_cases(ctx, 9, sub=sub, only=names, budget_s=120)
     return sub.found()
@@ -932,12 +990,12 @@ def replay(ctx, payload):
     case = payload.get('case') or {}
     if case.get('entry') and case.get('graph') is not None and case.get('rep'):
         replay_case(ctx, case)
-    elif case.get('f') == 'check_format' and case.get('line'):
-        evaluate(ctx, [container_case_from_desc(case)])
+    elif case.get('f') == 'check_format' and case.get('container'):
+        # re-run check_format on the recorded container (stored arrays as they were) against the model
+        obj = _deser_raw(case['container'])
+        fmt = case['container']['fmt']
+        evaluate_containers(ctx, _container_lines(obj, case['tok'], fmt, obj.shape[0], obj.shape[1], case['payload'], bool(case['allow']),
+                                                  case['dtype']))
     else:
         # a broken generated obligation: re-decide the obligations on the current tree
         ownership_obligations(ctx)
-
-
-def container_case_from_desc(case):
-    return Case(('replay', case['line']), {'entry': 'check_format'}, case['line'], case.get('impl'), None, True, case)
